@@ -76,6 +76,9 @@ class Ctx:
         self.base_order = []
         self.qbases = {}
         self.sincos = {}
+        self.keepalive = {}
+        self.canon_args = {}
+        self.canon_cmp = {}
         self.tokens = {}
         self.canon_terms = {}
         self.atom_pairs = {}
@@ -154,7 +157,7 @@ class Ctx:
         f = self.uf[name][0]
 
         def call(*args):
-            ts = [_lift_real(a).term() for a in args]
+            ts = [_canon_arg(_lift_real(a).term(), self) for a in args]
             return SymR(f(*ts))
         return call
 
@@ -228,6 +231,26 @@ class Ctx:
 
     def all_constraints(self):
         return list(self.axioms) + [a for a, _ in self.assumptions] + list(self.path)
+
+
+def _canon_arg(t, c):
+    """canonical (polynomial / rational normal form) term of an argument of an uninterpreted
+    function, so that algebraically equal arguments give the identical application"""
+    if z3.is_rational_value(t) or z3.is_int_value(t) or (z3.is_const(t) and t.num_args() == 0):
+        return t
+    hit = c.canon_args.get(t.get_id())
+    if hit is not None:
+        return hit
+    out = t
+    try:
+        poly, prims = _poly(t, c, for_trig=False, cap=80)
+        if len(poly) <= 80:
+            out = _poly_term(_reduce_trig(poly, c), prims)
+    except Exception:
+        out = t
+    c.canon_args[t.get_id()] = out
+    c.keepalive[('arg', t.get_id())] = t
+    return out
 
 
 def activate(c):
@@ -549,6 +572,9 @@ class SymR:
             return {'lt': self.c < b.c, 'le': self.c <= b.c, 'gt': self.c > b.c,
                     'ge': self.c >= b.c, 'eq': self.c == b.c, 'ne': self.c != b.c}[op]
         x, y = self.term(), b.term()
+        cd = _canon_diff(x, y)
+        if cd is not None:
+            x, y = cd, z3.RealVal(0)
         t = {'lt': x < y, 'le': x <= y, 'gt': x > y, 'ge': x >= y, 'eq': x == y, 'ne': x != y}[op]
         return mk_bool(t)
 
@@ -608,6 +634,29 @@ class SymR:
 
     def square(self):
         return self * self
+
+
+def _canon_diff(x, y):
+    """canonical term of x - y (polynomial / rational normal form), so that the same comparison
+    written in two algebraically equal ways is the same branch decision; None if too large"""
+    c = _CTX
+    if c is None:
+        return None
+    key = (x.get_id(), y.get_id())
+    hit = c.canon_cmp.get(key)
+    if hit is not None or key in c.canon_cmp:
+        return hit
+    out = None
+    try:
+        poly, prims = _poly(x - y, c, for_trig=False, cap=60)
+        poly = _reduce_trig(poly, c)
+        if len(poly) <= 16:
+            out = _poly_term(poly, prims)
+    except Exception:
+        out = None
+    c.canon_cmp[key] = out
+    c.keepalive[('cmp',) + key] = (x, y)
+    return out
 
 
 class SymAbs(SymR):
@@ -904,10 +953,27 @@ def sym_cbrt(x):
         poly, _pr = _poly(x.term(), c, for_trig=False)
         key = ('cbrt', tuple(sorted(poly.items())))
     except Exception:
+        poly, _pr = None, None
         key = ('cbrt', x.term().get_id())
     hit = c.bases.get(key)
     if hit is not None:
         return hit
+    if poly is not None and len(poly) == 1:
+        # single monomial: cbrt(p^3 m) = p cbrt(m) for every atom p occurring three times
+        (mono, coef), = poly.items()
+        outside, rest = [], list(mono)
+        for pid in sorted(set(mono)):
+            while rest.count(pid) >= 3 and _pr[pid].num_args() == 0:
+                for _ in range(3):
+                    rest.remove(pid)
+                outside.append(pid)
+        if outside:
+            inner = SymR(_poly_term({tuple(rest): coef}, _pr))
+            res = sym_cbrt(inner)
+            for pid in outside:
+                res = res * SymR(_pr[pid])
+            c.bases[key] = res
+            return res
     w = c.fresh('cbrt')
     c.add_axiom(w * w * w == x.term())
     c.add_axiom(z3.Implies(x.term() > 0, w > 0))
@@ -1040,6 +1106,7 @@ def _poly(t, c, for_trig=True, cap=400):
 
     def prim(t):
         prims[t.get_id()] = t
+        c.keepalive[t.get_id()] = t      # ast ids are only unique among live terms
         return {(t.get_id(),): Fraction(1)}
 
     def rat(t):
@@ -1371,6 +1438,7 @@ def trig(x):
         s, co = co, -s
     if s.c is None and co.c is None:
         c.sincos[(s.term().get_id(), co.term().get_id())] = x
+        c.keepalive[('sincos', s.term().get_id(), co.term().get_id())] = (s.term(), co.term())
     return s, co
 
 
